@@ -56,6 +56,7 @@ inductive Msg where
   | finished (ok : Bool)
   | hsOther (t : Nat)                            -- another handshake type (0 hello_request, 1 client_hello, ...)
   | hsMalformed (t : Nat)                        -- handshake type t whose body does not parse
+  | kuCoalesced (v : Nat)                        -- KeyUpdate followed by more handshake bytes in the same record
   | heartbeat (mt : Nat) (payload : Bytes) (padLen : Nat)
   | heartbeatBad                                 -- Heartbeat().parse raises SyntaxError
   | alert (level desc : Nat)
@@ -68,7 +69,7 @@ deriving DecidableEq, Repr, Inhabited
 def Msg.ct : Msg → Nat
   | .appData _ => 23
   | .keyUpdate _ | .newSessionTicket | .certRequest .. | .certificate .. | .certVerify ..
-  | .finished _ | .hsOther _ | .hsMalformed _ => 22
+  | .finished _ | .hsOther _ | .hsMalformed _ | .kuCoalesced _ => 22
   | .heartbeat .. | .heartbeatBad => 24
   | .alert .. => 21
   | .ccs => 20
@@ -85,6 +86,7 @@ def Msg.hsType : Msg → Nat
   | .finished _ => 20
   | .hsOther t => t
   | .hsMalformed t => t
+  | .kuCoalesced _ => 24
   | _ => 255
 
 structure Rec where
@@ -127,7 +129,7 @@ structure End where
   hbLog : List (Bytes × Nat) := []   -- heartbeat_response_callback invocations (payload, padding length)
   wrote : Bytes := []                -- observer: application bytes handed to the transport by write
   closing : Bool := false            -- observer: closeAsync is waiting for the peer's close_notify
-  closeStarted : Bool := false       -- `_refCount` already dropped to 0 by an earlier close() (later ones: < 0, no-op)
+  refCount : Int := 1                -- `_refCount`: 1 after the handshake, +1 per makefile(), -1 per close()
   got : Bytes := []                  -- observer: application bytes returned by read
   txDead : Bool := false             -- transport: every send fails
   rxDead : Nat := 0                  -- transport: 1 EOF / 2 reset once the in-flight records are consumed
@@ -265,6 +267,7 @@ def getMsgStep (expected secondary : List Nat) : M Step := fun l =>
       | .appData [] => (.ok .again, l1)
       | .hsMalformed t => if secondary.contains t then sendError 50 l1 else sendError 10 l1
       | .hsOther t => if secondary.contains t then sendError 50 l1 else sendError 10 l1
+      | .kuCoalesced _ => sendError 10 l1       -- "KU not aligned with record boundary" (or type not allowed)
       | _ =>
         if m.ct == 22 && !secondary.contains m.hsType then sendError 10 l1
         else (.ok (.got m), l1)
@@ -362,7 +365,7 @@ def requestClientAuth : M Unit := fun l =>
 /-- handshake types `readAsync` lets through -/
 def allowedHs (e : End) : List Nat :=
   if e.hasKeypair then [4, 24, 13]
-  else if !e.certReqs.isEmpty then [24, 11]
+  else if !e.certReqs.isEmpty then [24, 11, 25]
   else if e.isClient then [4, 24]
   else [24]
 
@@ -465,12 +468,16 @@ def closeBody : M Unit := fun l =>
     else closeWait (fuelOf l1) { l1 with me := { l1.me with closing := true } }
   | r => r
 
-/-- `closeAsync` / `_decrefAsync` with its `except` clauses -/
+/-- `makefile()`: one more reference that has to be closed before the connection is -/
+def makefile (l : Local) : Local := { l with me := { l.me with refCount := l.me.refCount + 1 } }
+
+/-- `closeAsync` / `_decrefAsync` with its `except` clauses: the reference count is dropped first and
+    only the close that brings it to 0 does anything -/
 def close : M Unit := fun l =>
   if l.me.closed then (.ok (), l)
-  else if l.me.closeStarted then (.ok (), l)
+  else if l.me.refCount - 1 != 0 then (.ok (), { l with me := { l.me with refCount := l.me.refCount - 1 } })
   else
-    match closeBody { l with me := { l.me with closeStarted := true } } with
+    match closeBody { l with me := { l.me with refCount := l.me.refCount - 1 } } with
     | (.ok (), l1) => (.ok (), l1)
     | (.stall, l1) => (.stall, l1)
     | (.err .socketError, l1) => (.ok (), shutdown true l1)
@@ -514,6 +521,7 @@ inductive Op where
   | requestClientAuth
   | heartbeat (payload : Bytes) (padLen : Nat)
   | close
+  | makefile                  -- `makefile()`: a file object sharing the connection (closing it is `close`)
   | inject (m : Msg)          -- the endpoint's record layer is handed this message as is (faulty peer)
   | kill (rx : Nat)           -- the endpoint's transport dies: sends fail, receives EOF (1) / reset (2)
   | abort                     -- the endpoint's socket is shut without close_notify
@@ -544,6 +552,7 @@ def runLocal (op : Op) (l : Local) : Out × Local :=
   | .requestClientAuth => liftU (requestClientAuth l)
   | .heartbeat p n => liftU (heartbeat p n l)
   | .close => liftU (close l)
+  | .makefile => (.done, makefile l)
   | .inject m => (.done, (sendRaw m l).getD l)
   | .kill rx => (.done, { l with me := { l.me with txDead := true, rxDead := rx } })
   | .abort => (.done, { l with me := { l.me with txDead := true }, out := { l.out with eof := true } })
